@@ -284,6 +284,22 @@ theorem C09_seek_by_before_seek_to {σ : Type} {W : World} {D : Decoder σ ℝ} 
   obtain ⟨s2, h, ht, ha, hb, _, hr, _⟩ := run_two_seeks C hin hv h0 hd hfull h1 k x h2 h3 hk hx fuel
   exact ⟨s2, h, ht, ha, hb, hr⟩
 
+/-- **`seek_by k` alone** is a `seek_to` of `shared.position() + k` (the position the audio thread last published — up to one
+    callback and a ring of frames behind the decoder transport —, not the decoder's own position): applied once, the decoder
+    transport lands where `Transport::seek_to(round((shared.position() + k)·sr))` lands, the ring is untouched. -/
+theorem C09_seek_by_lands {σ : Type} {W : World} {D : Decoder σ ℝ} {pos : σ → Nat} {good : σ → Prop}
+    (C : Dec.Contract D W.frames.toList pos good) {s : Sys σ ℝ} (hin : StreamIn W pos good s)
+    (hv : s.transport.ValidLoop W.n) (h0 : s.core.shared ≠ .stopped) (hd : s.soundDropped = false)
+    (hfull : s.ring.isFull = false) (h1 : s.cmds.setLoopRegion = none) (k : ℝ) (h2 : s.cmds.seekBy = some k)
+    (h3 : s.cmds.seekTo = none) (hk : seekIndex s.sampleRate (s.sharedPosition + k) ≤ W.frames.size) (fuel : Nat) :
+    ∃ s1, Sys.run D fuel s = Sys.produce D fuel s1 ∧
+      s1.transport = seekT W.n s.transport (seekIndex s.sampleRate (s.sharedPosition + k)) ∧
+      s1.cmds.seekBy = none ∧ s1.cmds.seekTo = none ∧ s1.ring = s.ring := by
+  have hina : StreamIn W pos good ({ s with cmds := { s.cmds with seekBy := none } } : Sys σ ℝ) :=
+    ⟨hin.cfg_slice, hin.cfg_n, hin.inv⟩
+  obtain ⟨ds1, _, hs1⟩ := seekToIndex_closed (D := D) C hina hv _ hk
+  exact ⟨_, run_seekBy D fuel s h0 hd hfull h1 k h2 _ hs1 h3, rfl, rfl, h3, rfl⟩
+
 /-- **A seek lands where the static sound's transport lands.** `DecodeScheduler::seek_to(x)` (index inside the
     decoder's audio, valid loop region) never fails and leaves the decoder transport exactly at the result of
     `Transport::seek_to(index)` — the call `StaticSound::seek_to_index` makes — in closed form: position `seekLands`
@@ -330,5 +346,11 @@ example : StreamIn exSeekWorld (fun p => p) (fun _ => True) (exSeekSys { seekBy 
     seekIndex 4 0 ≤ exSeekWorld.frames.size :=
   ⟨exSeek_in _, exSeekWorld_ok.valid, by simp [exSeekSys, SoundCore.new], exSeek_room _,
     by simp [exSeekSys, seekIndex_zero], by simp [seekIndex_zero]⟩
+
+/-- hypotheses of `C09_seek_by_lands` -/
+example : (exSeekSys { seekBy := some 0 }).cmds.seekBy = some 0 ∧ (exSeekSys { seekBy := some 0 }).cmds.seekTo = none ∧
+    StreamIn exSeekWorld (fun p => p) (fun _ => True) (exSeekSys { seekBy := some 0 }) ∧
+    seekIndex 4 ((exSeekSys { seekBy := some 0 }).sharedPosition + 0) ≤ exSeekWorld.frames.size :=
+  ⟨rfl, rfl, exSeek_in _, by simp [exSeekSys, seekIndex_zero]⟩
 
 end K
